@@ -64,6 +64,8 @@ Inductive fault :=
 | FEms       (* client requires extended master secret, server's ServerHello has none: client alert 71 in flight3Parse *)
 | FSEms      (* server requires it, ClientHello has none: server alert 71 in flight0Parse, before the session lookup *)
 | FAlpn      (* no common application protocol: server alert 120 while generating flight 4 / 4b *)
+| FSPolicy   (* server's client-authentication policy refuses the client (no / unverified certificate): alert 41
+                in flight4Parse after the client's Finished (not evaluated when resuming) *)
 | FSVerify   (* server's VerifyConnection callback fails: alert 42 in flight4Parse (not called when resuming) *)
 | FCVerify.  (* client's VerifyConnection callback fails: alert 42 in flight5Generate (not called when resuming) *)
 
@@ -76,7 +78,7 @@ Record params := mkParams {
   p_newsid : bid;          (* the session id a server with a store generates in flight 4 *)
   p_msc : secret;          (* master secret the client derives in a full handshake *)
   p_mss : secret;          (* master secret the server derives in a full handshake (differs e.g. for a wrong PSK) *)
-  p_ccert : bool;          (* the client presents a certificate in a full handshake *)
+  p_ccert : bool;          (* the client's flight 5 of a full handshake contains a Certificate message (even an empty one) *)
   p_ccid : option N;       (* connection id produced by the client's generator in this connection *)
   p_scid : option N;       (* connection id produced by the server's generator in this connection *)
   p_fault : fault;
@@ -187,14 +189,15 @@ Section Model.
     | FCVerify => R (idle (SentAlert 42) csid) (idle (RecvAlert 42) nsid) (wrongdel ++ cdel) []
     | f =>
         if negb (p_arr_c p) then R (idle Stalled csid) (idle Stalled nsid) wrongdel [] else
-        (* flight4Parse: ClientKeyExchange -> master secret -> SetSession; then the client's Finished record *)
-        if negb (K_eqb ks kc) then R (idle Stalled csid) (idle Stalled ssid) wrongdel srv_set else
-        (* the server checks the client's Finished (verify_data), then calls VerifyConnection *)
+        (* flight4Parse: ClientKeyExchange -> master secret; the client's Finished record must open and its
+           verify_data match; then the client-authentication policy and VerifyConnection; only THEN
+           SetSession (a refused or silent client leaves no entry; the alert's DelSession finds nothing) *)
+        if negb (K_eqb ks kc) then R (idle Stalled csid) (idle Stalled ssid) wrongdel [] else
         match (if negb (V_eqb (VD true (p_mss p) tr) (VD true (p_msc p) tr)) then Some 40
-               else match f with FSVerify => Some 42 | _ => None end) with
+               else match f with FSPolicy => Some 41 | FSVerify => Some 42 | _ => None end) with
         | Some d =>
             R (idle (RecvAlert d) csid) (idle (SentAlert d) ssid) wrongdel
-              (srv_set ++ if negb (ssid =? 0) then [MDel ssid] else [])
+              (if negb (ssid =? 0) then [MDel ssid] else [])
         | None =>
             let S := s_side p (p_mss p) ks ssid in
             if negb (p_arr_s p) then R (idle Stalled csid) S wrongdel srv_set else
@@ -245,6 +248,14 @@ Section Model.
     | Conn p :: t =>
         let r := conn p cs ss in
         mkEntry p cs ss r :: run t (post_c cs r) (post_s ss r)
+    end.
+
+  (* the stores after a history *)
+  Fixpoint final (evs : list event) (cs ss : store) : store * store :=
+    match evs with
+    | [] => (cs, ss)
+    | Mutate cs' ss' :: t => final t cs' ss'
+    | Conn p :: t => let r := conn p cs ss in final t (post_c cs r) (post_s ss r)
     end.
 End Model.
 
